@@ -126,6 +126,16 @@ def bounded(tier, seed):
             gens.append(domain.irs(2 if tier == "quick" else 2, pool, sample=None if tier == "thorough" else 1500, seed=seed, doc=doc, returns=ret))
     gens.append(domain.irs(8, pool, sample=150 if tier == "quick" else 1500, seed=seed + 1))
     cases = [ir for g in gens for ir in g]
+    # parameter names the parsers treat specially (`*kwargs` gets a fallback type): every JSON-representable type under such a name
+    from collections import OrderedDict
+
+    for nm in ("loader_kwargs", "kwargs", "num_kwargs"):
+        for t in TYPES:
+            for dflt in domain.SHAPES[t][:2]:
+                p_ = OrderedDict((("typ", t), ("doc", "the %s" % nm)))
+                if dflt is not domain.ABSENT:
+                    p_["default"] = dflt
+                cases.append({"name": "Conf", "doc": "Summary of it.", "params": OrderedDict(((nm, p_), ("alpha", OrderedDict((("typ", "int"), ("doc", "the alpha")))))), "returns": None})
     res = common.pmap(check_ir, cases)
     fails = {}
     for ir, r in zip(cases, res):
@@ -152,7 +162,7 @@ def main(tier, write_baseline=False):
         n, distinct, fails = bounded(tier, run.seed)
         run.bounded.append({
             "name": "run-time form of the C06 contract on the real emitter/parser over IR(n) (bounded, NOT counted as proved)",
-            "bound": "JSON-representable slice of IR(n): %d types x defaults x 3 description kinds; n <= 2 %s x {doc, no doc} x {return, no return}; n <= 8 seeded sample" % (len(TYPES), "exhaustive" if tier == "thorough" else "sampled (1500 per combination)"),
+            "bound": "JSON-representable slice of IR(n): %d types x defaults x 3 description kinds; n <= 2 %s x {doc, no doc} x {return, no return}; n <= 8 seeded sample; every type under the parameter names loader_kwargs / kwargs / num_kwargs" % (len(TYPES), "exhaustive" if tier == "thorough" else "sampled (1500 per combination)"),
             "rule": "distinct interface projections with at least one parameter",
             "evaluations": n, "distinct_nontrivial": distinct,
             "failures": [{"kind": k, "what": v[1][:300], "ir": json.dumps(v[0], default=str)[:300]} for k, v in list(fails.items())[:5]],
